@@ -3,7 +3,7 @@
 
 use crate::model::*;
 use rs_store::{
-    BackpressurePolicy, DispatchOp, Dispatcher, DroppableStore, Effect, Middleware, MiddlewareOp,
+    FnSubscriber, BackpressurePolicy, DispatchOp, Dispatcher, DroppableStore, Effect, Middleware, MiddlewareOp,
     Reducer, Selector, SelectorSubscriber, Store, StoreBuilder, StoreError, StoreImpl, Subscriber,
     Subscription,
 };
@@ -624,6 +624,16 @@ impl World {
                 Arc::new(SelectorSubscriber::new(SelSel, move |val: u8, act: Act| {
                     if let Some(w) = wk.upgrade() {
                         w.log(K::SelCb { sub, val, act: act.id });
+                    }
+                }))
+            }
+            SubKind::Direct if self.prog.subs[sub].shared => {
+                // the library's own closure subscriber (it has no on_unsubscribe of its own)
+                let wk = Arc::downgrade(self);
+                Arc::new(FnSubscriber::from(move |state: &St, action: &Act| {
+                    if let Some(w) = wk.upgrade() {
+                        w.log(K::NotB { sub, act: action.id, n: state.n, h: state.h, sel: state.sel });
+                        w.log(K::NotE { sub, act: action.id });
                     }
                 }))
             }
